@@ -5,6 +5,35 @@ From Portus Require Export Image Machine SrcSem Typing Control.
 
 (* compile, build the install and change-program messages exactly as the runtime does, feed them
    to the datapath model, start a connection *)
+(* the declared variables in slot order: report variables by report slot, then control variables
+   by control slot, each with its volatility and literal initial value *)
+Definition find_slot (named : list (name * reg)) (is_rep : bool) (k : N) : option (name * reg) :=
+  find (fun kv => match snd kv with
+                  | Report i _ _ => is_rep && (i =? k)
+                  | Control i _ _ => negb is_rep && (i =? k)
+                  | _ => false
+                  end) named.
+
+Definition entries_in_order (named : list (name * reg)) (nrep nctl : nat) : list (name * reg) :=
+  flat_map (fun k => match find_slot named true (N.of_nat k) with Some kv => [kv] | None => [] end) (seq 0 nrep) ++
+  flat_map (fun k => match find_slot named false (N.of_nat k) with Some kv => [kv] | None => [] end) (seq 0 nctl).
+
+Definition decl_of (kv : name * reg) : sdecl * vty :=
+  match snd kv with
+  | Report _ (TNum (Some n)) v => (mkSD (fst kv) v (Some n) true, VNum)
+  | Report _ (TBool (Some b)) v => (mkSD (fst kv) v (Some (if b then 1 else 0)) true, VBool)
+  | Report _ _ v => (mkSD (fst kv) v None true, VNum)
+  | Control _ (TNum (Some n)) v => (mkSD (fst kv) v (Some n) false, VNum)
+  | Control _ (TBool (Some b)) v => (mkSD (fst kv) v (Some (if b then 1 else 0)) false, VBool)
+  | Control _ _ v => (mkSD (fst kv) v None false, VNum)
+  | _ => (mkSD (fst kv) false None false, VNum)
+  end.
+
+Definition decls_of_scope (sc0 : scope) : list (sdecl * vty) :=
+  map decl_of (entries_in_order (sc_named sc0) (N.to_nat (sc_nperm sc0)) (N.to_nat (sc_nctl sc0))).
+
+(* compile, build the install and change-program messages exactly as the runtime does, feed them
+   to the datapath model, start a connection *)
 Definition load (src : list N) (uid : N) : option (dpstate * sprog * list vty * scope) :=
   match utf8_decode src with
   | None => None
@@ -18,29 +47,10 @@ Definition load (src : list N) (uid : N) : option (dpstate * sprog * list vty * 
         let '(d2, _) := conn_start d1 10 1448 [] in
         let '(rc2, d3) := read_msg d2 cp in
         if (rc1 =? 0)%Z && (rc2 =? 0)%Z then
-          let decl_of (kv : name * reg) : option (N * N * sdecl * vty) :=
-              match snd kv with
-              | Report i (TNum (Some n)) v => Some (0, i, mkSD (fst kv) v (Some n) true, VNum)
-              | Report i (TBool (Some b)) v => Some (0, i, mkSD (fst kv) v (Some (if b then 1 else 0)) true, VBool)
-              | Report i _ v => Some (0, i, mkSD (fst kv) v None true, VNum)
-              | Control i (TNum (Some n)) v => Some (1, i, mkSD (fst kv) v (Some n) false, VNum)
-              | Control i (TBool (Some b)) v => Some (1, i, mkSD (fst kv) v (Some (if b then 1 else 0)) false, VBool)
-              | Control i _ v => Some (1, i, mkSD (fst kv) v None false, VNum)
-              | _ => None
-              end in
-          let raw := fold_right (fun kv acc => match decl_of kv with Some d => d :: acc | None => acc end) [] (sc_named sc0) in
-          (* report slots in order, then control slots: insertion sort on (class, index) *)
-          let key (d : N * N * sdecl * vty) := fst (fst (fst d)) * 1000 + snd (fst (fst d)) in
-          let sorted := fold_right (fun d acc =>
-                          (fix ins (l : list (N * N * sdecl * vty)) :=
-                             match l with
-                             | [] => [d]
-                             | x :: r => if key d <=? key x then d :: l else x :: ins r
-                             end) acc) [] raw in
           Some (d3,
-                mkSP (map (fun d => snd (fst d)) sorted)
+                mkSP (map fst (decls_of_scope sc0))
                      (map (fun ev => mkSEv (ev_flag ev) (ev_body ev)) evs),
-                map snd sorted, scf)
+                map snd (decls_of_scope sc0), scf)
         else None
       | _, _ => None
       end
